@@ -194,11 +194,14 @@ def check (c):
         band = 'lowhoriz'
     if real_ground and band == 'decide' and any (float (x.height) != 0 for x in m.media):
         band = 'stepped'
+    if real_ground and band == 'decide' and m.media [0].nradials and low_h < 0.4:
+        band = 'radialscreen'
     if measured > 0.015:
         msg = ( 'P_src %.6g, P_load %.6g, P_rad %.6g: (P_rad + P_load - P_src) / S = %+.4f (segments up to lambda/%.1f, '
                 'junction segment ratio %.2f, cond %.3g)' % (P_src, P_load, P_rad, err, 1 / facts ['seg_max'], facts ['jratio3'], cond))
         key = dict ( coarse = 'coarse-segmentation', junction = 'unequal-junction-segments', decide = 'power-balance'
-                   , lowhoriz = 'low-horizontal-wire-over-real-ground', stepped = 'stepped-media-heights') [band]
+                   , lowhoriz = 'low-horizontal-wire-over-real-ground', stepped = 'stepped-media-heights'
+                   , radialscreen = 'radial-screen-under-horizontal-wire') [band]
         viol.append (dict (monitor = 'balance', key = key, msg = msg, measured = measured, allowed = 0.015))
     # ---- solving again on the same object must not change the books
     observe.solve (m)
